@@ -25,14 +25,27 @@ template <int... S, int V> struct append_seq<std::integer_sequence<int, S...>, V
 template <class Seq> struct last_of { static constexpr int value = -1; };
 template <int A> struct last_of<std::integer_sequence<int, A>> { static constexpr int value = A; };
 template <int A, int... R> struct last_of<std::integer_sequence<int, A, R...>> { static constexpr int value = last_of<std::integer_sequence<int, R...>>::value; };
+// the nearest functor outside the current position that is not unary takes three operands (where, dig2, bury2)
+template <int... S> constexpr bool three_operand_functor_outside(std::integer_sequence<int, S...>) {
+    int seq[] = {S..., -1}; int n = (int)sizeof...(S);
+    for (int q = n - 1; q >= 0; q--) { if (seq[q] == 0 || seq[q] == 1) continue; return seq[q] == 3 || seq[q] == 6 || seq[q] == 7; }
+    return false;
+}
+template <int... S> constexpr bool comb_not_outermost(std::integer_sequence<int, S...>) {
+    int seq[] = {S..., -1}; int n = (int)sizeof...(S);
+    for (int q = 1; q < n; q++) if (seq[q] >= 4) return true;
+    return false;
+}
 // where yields an optional even over fixed shapes; a 3-operand functor (where, dig2, bury2) directly outside it would have to take an
 // optional stack apart, which does not compile (a loud limitation): those adjacent pairs are reported as unsupported
 template <int Level, class Seq = std::integer_sequence<int>> constexpr bool on(int idx) {
 #ifdef FIRST_IDX
     if (Level == 0) return idx == FIRST_IDX;
 #endif
-    constexpr int prev = last_of<Seq>::value;
-    if (idx == 3 && (prev == 3 || prev == 6 || prev == 7)) return false;
+    if (idx == 3 && three_operand_functor_outside(Seq{})) return false;
+    // ... and nothing can be applied to the optional stack a combinator leaves behind once where is inside it:
+    // where below a combinator that is not the outermost functor is unsupported as well
+    if (idx == 3 && comb_not_outermost(Seq{})) return false;
     return true;
 }
 static int idx_of(const std::string& n) { const char* names[] = {"u1", "u2", "b", "t", "swap", "dup", "dig2", "bury2"}; for (int i = 0; i < 8; i++) if (n == names[i]) return i; return -1; }
